@@ -34,9 +34,17 @@ def conform_server(chk):
     from harness.drivers import server as sv
     recs = sv.take_traces()
     groups = {}
+    held = 0
     for r in recs:
+        if r.get("held_read"):
+            # the driver held the store's reply to the release task back (ReleaseRead / ReleaseAct of ServerStack.tla): the
+            # line format of TraceServer.tla has release_fire as one step and send_begin as the lock acquisition -- not validated
+            held += 1
+            continue
         if r["lines"]:
             groups.setdefault((r["idle_timeout_ms"], tuple(r["backoffs_ms"])), []).append(r)
+    if held:
+        chk.add(server_traces_with_held_release_read_not_validated=held)
     jobs = sorted(groups.items())
 
     def one(job):
